@@ -109,6 +109,9 @@ func verifCheckParse(src string, spans bool) {
 		}
 	}
 	verifAssert(once, "each node entered exactly once")
+	if cnt := verifCountNodes(prog); cnt >= 0 {
+		verifAssert(v.nodes == cnt, "ast.Walk delivers every node of the tree (count equals an independent traversal)")
+	}
 	if spans {
 		verifAssert(!v.idxPanic, "Idx0/Idx1 do not panic on an accepted tree")
 		verifAssert(!v.badSpan, "node span within the file")
